@@ -51,6 +51,12 @@ def shard(ctx):
         fiin_case(ctx, rng, lens if i == 0 else None, P["maxfile"])
     for i in range(P["nsets"] * 2):
         fiin_parse_case(ctx, rng)
+    # tables whose entry count crosses a width or power-of-two boundary (u8, 2^10, u16; 32 KiB / 64 KiB of records)
+    big = [255, 256, 257, 341, 342, 682, 683, 1023, 1024, 1025, 4097] + ([65535, 65537] if ctx.tier != "quick" else [])
+    for n in [n for i, n in enumerate(big) if i % ctx.nshards == ctx.index]:
+        fiin_parse_case(ctx, rng, n)
+    if ctx.index == 1 % ctx.nshards:
+        fiin_case(ctx, rng, [rng.choice([0, 1, 55, 64, 100]) for _ in range(rng.choice([257, 300]))], P["maxfile"])
     for i in range(P["nlists"]):
         plist_case(ctx, rng)
 
@@ -115,10 +121,13 @@ def fiin_case(ctx, rng, lens, maxfile):
         os.unlink(p)
 
 
-def fiin_parse_case(ctx, rng):
+def fiin_parse_case(ctx, rng, count=None):
     used = set()
     ents = []
-    for _ in range(rng.choice([0, 1, 2, 7, 30])):
+    for i in range(rng.choice([0, 1, 2, 7, 30]) if count is None else count):
+        if count is not None:
+            ents.append((rng.getrandbits(31), ("f%05d.%s" % (i, rng.choice(["dat", "index", "exe"]))).encode(), rng.randbytes(20)))
+            continue
         ents.append((rng.choice([0, 1, 2 ** 31 - 1, rng.getrandbits(31)]), rand_name(rng, used).encode("utf-8"), rng.randbytes(20)))
     raw = fiin.build(ents)
     f = ctx.write("b.fiin", raw)
@@ -136,10 +145,10 @@ def fiin_parse_case(ctx, rng):
 
 
 def bucket(n):
-    for b in (0, 1, 2, 8, 40):
+    for b in (0, 1, 2, 8, 40, 256, 1024, 65535):
         if n <= b:
             return "<=%d" % b
-    return ">40"
+    return ">65535"
 
 
 STR_ALPHA = "abcdefghijklmnopqrstuvwxyzABCDEFGHIJKLMNOPQRSTUVWXYZ0123456789_-./:?=&%~"
